@@ -34,7 +34,15 @@ def init_attrs(ctx: Ctx, chk) -> None:
     rule = "INIT-ATTRS"
     chk.rule(rule, "the attributes the stream operations test (`self.reader`, `self.writer`, the skip flag) exist on every transport object before connect: StreamTransport gives each a value in its constructor (or in the class body - a bare annotation creates no attribute), and every subclass constructor calls it; otherwise read / write / disconnect on a transport that was never (or not successfully) connected fail with AttributeError instead of the transport error / silent return the statement asks for")
     st = ctx.cls(ST)
-    init = st.methods.get("__init__", [None])[-1]
+    init = st.find_method("__init__")
+    # the constructor chain: a constructor that calls super().__init__() / Base.__init__(self) also runs the next one
+    # in the MRO (the stream state may live in a base class / mixin of StreamTransport)
+    inits = []
+    cur = init
+    while cur is not None and cur not in inits:
+        inits.append(cur)
+        delegates = any(isinstance(x, ast.Call) and isinstance(x.func, ast.Attribute) and x.func.attr == "__init__" for x in ctx.own_nodes(cur))
+        cur = st.find_method("__init__", after=cur.cls) if delegates and cur.cls is not None else None
     used = set()
     for name in ("read", "write", "disconnect", "connect"):
         f = st.find_method(name)
@@ -48,7 +56,7 @@ def init_attrs(ctx: Ctx, chk) -> None:
         n_inst += 1
         chk.instance(rule)
         key = f"{st.fq}.{attr}::initialised"
-        in_init = init is not None and any(isinstance(x, (ast.Assign, ast.AnnAssign)) and any(isinstance(t, ast.Attribute) and t.attr == attr and isinstance(t.value, ast.Name) and t.value.id == "self" for t in (x.targets if isinstance(x, ast.Assign) else [x.target])) and (isinstance(x, ast.Assign) or x.value is not None) for x in ctx.own_nodes(init))
+        in_init = any(isinstance(x, (ast.Assign, ast.AnnAssign)) and any(isinstance(t, ast.Attribute) and t.attr == attr and isinstance(t.value, ast.Name) and t.value.id == "self" for t in (x.targets if isinstance(x, ast.Assign) else [x.target])) and (isinstance(x, ast.Assign) or x.value is not None) for i_ in inits for x in ctx.own_nodes(i_))
         in_body = any(attr in k.attrs for k in st.repo_mro())
         if in_init or in_body:
             chk.ok(rule, key, "assigned in __init__" if in_init else "class-level default", st.module.relpath + f":{st.node.lineno}", sample=n_inst <= 2)
@@ -355,7 +363,8 @@ def resync2(ctx: Ctx, chk, read, discards) -> None:
     for call, handler in discards:
         chk.instance(rule)
         key = f"{read.fq}::except LimitOverrunError::skips-rest-of-line"
-        flags = [norm(t) for st_ in handler.body if isinstance(st_, ast.Assign) and isinstance(st_.value, ast.Constant) and st_.value.value is True for t in st_.targets if isinstance(t, ast.Attribute) and isinstance(t.value, ast.Name) and t.value.id == "self"]
+        # locals written out: a helper that takes the transport as `transport` stores `transport._skip_line`
+        flags = [cn.canon(t) for st_ in handler.body if isinstance(st_, ast.Assign) and isinstance(st_.value, ast.Constant) and st_.value.value is True for t in st_.targets if isinstance(t, ast.Attribute) and cn.canon(t.value) == "self"]
         if not flags:
             chk.refute(rule, key, f"`{norm(call)[:60]}` drops what readuntil scanned, but nothing remembers that the rest of that line is still to come: the tail of the over-long line (or an empty line) is delivered by the next read as if it were a line of the stream", ctx.loc(read, call))
             continue
@@ -374,7 +383,7 @@ def resync2(ctx: Ctx, chk, read, discards) -> None:
 
         starts = [s_ for r in ru for s_, lab in r.succ if lab != "exc"]
         p = g.reach_avoiding(starts, lambda x: x in rets, lambda x: x in ru, labels_skip=("exc",), from_succ=False, truth=truth)
-        resets = [x for x in g.nodes if x.kind == "stmt" and isinstance(x.ast, ast.Assign) and isinstance(x.ast.value, ast.Constant) and x.ast.value.value is False and any(norm(t) in flags for t in x.ast.targets)]
+        resets = [x for x in g.nodes if x.kind == "stmt" and isinstance(x.ast, ast.Assign) and isinstance(x.ast.value, ast.Constant) and x.ast.value.value is False and any(cn.canon(t) in flags for t in x.ast.targets)]
         p_loop = g.reach_avoiding(starts, lambda x: x in ru, lambda x: x in resets or x in rets, labels_skip=("exc",), from_succ=False, truth=truth)
         if p is None and p_loop is not None:
             chk.refute(rule, key, f"the skipped line loops back to readuntil without clearing {flags[0]} ({' -> '.join(g.path_text(p_loop)[:4])}): after one over-long line every following line is skipped and read() never returns again", ctx.loc(read, handler))
